@@ -65,3 +65,109 @@ pub(crate) fn sim_fill(dest: &mut [u8]) -> bool {
         }
     })
 }
+
+// ---------------------------------------------------------------------------------------------
+// Second seam: the *seeded* generator (`StdRng`). A seeded generator is deterministic, so there is
+// nothing to schedule; what a sampling campaign cannot reach are the draws a ChaCha stream
+// produces with negligible probability (a zero word, the largest word, the same index n times).
+// With a fault plan installed on the constructing thread, a `StdRng` replaces a pseudo-random
+// subset of its output words by boundary values. Which words, and by what, is a pure function of
+// (the generator's seed, the plan's salt, the index of the draw): two generators built from the
+// same seed under the same plan still produce identical streams, so every statement of the form
+// "same seed, same result" keeps its meaning. Without a plan `StdRng` is upstream's, unchanged.
+
+use std::cell::Cell;
+
+/// Fault plan for seeded generators constructed on this thread.
+#[derive(Clone, Copy, Debug, PartialEq, Eq)]
+pub struct StdFaultPlan {
+    /// distinguishes plans (two plans with different salts hit different draws)
+    pub salt: u64,
+    /// boundary values per million draws (capped at 500_000 so that rejection loops end)
+    pub per_million: u32,
+}
+
+thread_local! {
+    static STD_PLAN: Cell<Option<StdFaultPlan>> = Cell::new(None);
+    static STD_FIRED: Cell<u64> = Cell::new(0);
+}
+
+/// Install (or clear) the plan for seeded generators constructed on this thread from now on.
+/// Returns the previous plan.
+pub fn set_std_fault_plan(plan: Option<StdFaultPlan>) -> Option<StdFaultPlan> {
+    STD_PLAN.with(|p| p.replace(plan))
+}
+
+/// Number of boundary values served on this thread since the last call; resets the counter.
+pub fn take_std_faults_fired() -> u64 {
+    STD_FIRED.with(|c| c.replace(0))
+}
+
+/// Per-generator state of the fault plan (captured when the generator is constructed).
+#[derive(Clone, Debug, PartialEq, Eq)]
+pub(crate) struct StdFault {
+    key: u64,
+    salt: u64,
+    per_million: u32,
+    ctr: u64,
+}
+
+#[inline]
+fn mix64(mut z: u64) -> u64 {
+    z = z.wrapping_add(0x9E37_79B9_7F4A_7C15);
+    z = (z ^ (z >> 30)).wrapping_mul(0xBF58_476D_1CE4_E5B9);
+    z = (z ^ (z >> 27)).wrapping_mul(0x94D0_49BB_1331_11EB);
+    z ^ (z >> 31)
+}
+
+pub(crate) fn std_fault_for(seed: &[u8]) -> Option<StdFault> {
+    let plan = STD_PLAN.with(|p| p.get())?;
+    let mut key = 0x243F_6A88_85A3_08D3u64;
+    for chunk in seed.chunks(8) {
+        let mut b = [0u8; 8];
+        b[..chunk.len()].copy_from_slice(chunk);
+        key = mix64(key ^ u64::from_le_bytes(b));
+    }
+    Some(StdFault { key, salt: plan.salt, per_million: plan.per_million.min(500_000), ctr: 0 })
+}
+
+impl StdFault {
+    #[inline]
+    fn decide(&mut self) -> Option<u64> {
+        self.ctr = self.ctr.wrapping_add(1);
+        let h = mix64(self.key ^ self.salt.rotate_left(23) ^ self.ctr.wrapping_mul(0xD6E8_FEB8_6659_FD93));
+        if (h % 1_000_000) as u32 >= self.per_million {
+            return None;
+        }
+        STD_FIRED.with(|c| c.set(c.get() + 1));
+        Some(h >> 20)
+    }
+    #[inline]
+    pub(crate) fn map32(&mut self, v: u32) -> u32 {
+        match self.decide() {
+            None => v,
+            Some(h) => match h % 7 {
+                0 | 1 => 0,
+                2 => u32::MAX,
+                3 => 1,
+                4 => u32::MAX - 1,
+                5 => 0x8000_0000,
+                _ => v & 0xFFFF, // tiny value: first index of any range
+            },
+        }
+    }
+    #[inline]
+    pub(crate) fn map64(&mut self, v: u64) -> u64 {
+        match self.decide() {
+            None => v,
+            Some(h) => match h % 7 {
+                0 | 1 => 0,
+                2 => u64::MAX,
+                3 => 1,
+                4 => u64::MAX - 1,
+                5 => 1u64 << 63,
+                _ => v & 0xFFFF_FFFF, // tiny value: first index of any range
+            },
+        }
+    }
+}
